@@ -692,6 +692,11 @@ func c05R6(r *Report) {
 				miss, reached := pathsMissingEntry(f, func(i ssa.Instruction) bool { return i == ssa.Instruction(st) }, nil, []edgeReq{{Name: "bitmap write", Instr: isBitmapWrite}})
 				before = reached > 0 && len(miss) == 0
 			}
+			if !after && !before {
+				// the list is changed in a private helper that tells its caller whether it did (found := rs.removeRequested(i)):
+				// then every caller writes the bitmap on the paths on which the helper reports the change
+				after = c05LiftedPairing(p, st, isBitmapWrite)
+			}
 			r.Check(after || before, "R6", key, st.Pos(), "the membership bitmap is written on every path that changes this list",
 				fmt.Sprintf("%s changes the %s list on a path that never writes the membership bitmap: bits of entries that are gone stay set (or new entries have no bit), and the next Del/Cancel/Enqueue of such a block hits the package's own assertion panic — reachable from a Piece or Cancel message", fname(f), fieldVar(fa).Name()))
 		})
@@ -819,4 +824,92 @@ func c05R10(r *Report) {
 		}
 	}
 	r.Notes = append(r.Notes, fmt.Sprintf("R10: %d memoised integer fields of peer.Peer found", nMemo))
+}
+
+// c05LiftedPairing: store st sits in a private helper whose boolean result says whether the store happened (true on
+// every return reached after the store, false on every other return); at every call site of the helper, every path
+// on which that result is true reaches a partner write before the caller returns.
+func c05LiftedPairing(p *Prog, st *ssa.Store, partner func(ssa.Instruction) bool) bool {
+	f := st.Parent()
+	obj, isFn := f.Object().(*types.Func)
+	if !isFn || obj.Exported() || f.Parent() != nil {
+		return false
+	}
+	calls, esc := p.callSitesOf(f)
+	if len(esc) > 0 || len(calls) == 0 {
+		return false
+	}
+	afterStore := reachableFrom(st.Block())
+	afterStore[st.Block()] = true
+	flag := -1
+	nres := f.Signature.Results().Len()
+	for j := 0; j < nres; j++ {
+		if !isBoolType(f.Signature.Results().At(j).Type()) {
+			continue
+		}
+		good := true
+		for _, ret := range returnsOf(f) {
+			res := retResults(ret)
+			b, isb := constBool(res[j])
+			after := afterStore[ret.Block()] && (ret.Block() != st.Block() || instrIndex(st) < instrIndex(ret))
+			if !isb || b != after {
+				good = false
+			}
+		}
+		if good {
+			flag = j
+		}
+	}
+	if flag < 0 {
+		return false
+	}
+	for _, cs := range calls {
+		c, ok := cs.(*ssa.Call)
+		if !ok || funcPkgPath(c.Parent()) != funcPkgPath(f) {
+			return false
+		}
+		var fv ssa.Value = c
+		if nres > 1 {
+			ex := extractOf(c, flag)
+			if ex == nil {
+				return false // the caller does not look at the flag
+			}
+			fv = ex
+		}
+		seen := map[*ssa.BasicBlock]bool{}
+		bad := false
+		var scan func(b *ssa.BasicBlock, idx int)
+		scan = func(b *ssa.BasicBlock, idx int) {
+			if bad {
+				return
+			}
+			for _, in := range b.Instrs[idx:] {
+				if partner(in) {
+					return
+				}
+				if _, isRet := in.(*ssa.Return); isRet {
+					bad = true
+					return
+				}
+			}
+			iff, _ := b.Instrs[len(b.Instrs)-1].(*ssa.If)
+			for si, s2 := range b.Succs {
+				if iff != nil {
+					g := Guard{Cond: iff.Cond, Pol: si == 0}.norm()
+					if g.Cond == fv && !g.Pol {
+						continue // the helper reported "nothing changed"
+					}
+				}
+				if !seen[s2] {
+					seen[s2] = true
+					scan(s2, 0)
+				}
+			}
+		}
+		scan(c.Block(), instrIndex(c)+1)
+		if bad {
+			return false
+		}
+	}
+	return true
 }
